@@ -645,7 +645,7 @@ Section SubgoalTotal.
       + unfold parse_operator_goal. apply is_ok_pbind; [now apply Hsub|].
         intros sub _. destruct (str_eqb functor g_time); [exact I|].
         destruct (str_eqb functor g_not); exact I.
-      + apply is_ok_pbind; [now apply Hargs|]. intros; exact I.
+      + destruct (trim args); [exact I|]. apply is_ok_pbind; [now apply Hargs|]. intros; exact I.
     - apply is_ok_pbind; [|intros; exact I].
       apply (parse_functor_terms_ok _ n Hargs). rewrite Et in Ht. simpl in *. lia.
   Qed.
